@@ -269,3 +269,61 @@ func H_ConstructOrder() {
 	vrt.Assert(a == b, "table-independent-of-map-order")
 	vrt.Reach("built")
 }
+
+// H_ResolveSharedShiftCrossRule: expr = expr PLUS expr | incr | NUM ;
+// incr = expr PLUS PLUS. The shift on PLUS is backed by productions of two
+// rules, so no choice of qualifiers may settle the conflict.
+func H_ResolveSharedShiftCrossRule() {
+	g := NewGrammar()
+	plus, num := g.AddTerminal("PLUS"), g.AddTerminal("NUM")
+	expr, incr := g.AddRule("expr"), g.AddRule("incr")
+	g.SetStart(expr)
+	ps := []*Prod{g.AddProd(expr, expr, plus, expr), g.AddProd(expr, incr), g.AddProd(expr, num), g.AddProd(incr, expr, plus, plus)}
+	for k, p := range ps {
+		vQual(p, vrt.Name("p", k))
+	}
+	t := ConstructLALR(g)
+	vrt.Assert(t.HasConflicts, "cross-rule-shift-conflict-reported")
+	vrt.Reach("conflict")
+}
+
+// H_ResolveSharedShiftOrder: the same with incr declared first (the order of
+// the productions behind the shift is reversed).
+func H_ResolveSharedShiftOrder() {
+	g := NewGrammar()
+	plus, num := g.AddTerminal("PLUS"), g.AddTerminal("NUM")
+	incr, expr := g.AddRule("incr"), g.AddRule("expr")
+	g.SetStart(expr)
+	ps := []*Prod{g.AddProd(incr, expr, plus, plus), g.AddProd(expr, expr, plus, expr), g.AddProd(expr, incr), g.AddProd(expr, num)}
+	for k, p := range ps {
+		vQual(p, vrt.Name("p", k))
+	}
+	t := ConstructLALR(g)
+	vrt.Assert(t.HasConflicts, "cross-rule-shift-conflict-reported")
+	vrt.Reach("conflict")
+}
+
+// H_ResolveMixedShift: expr = expr PLUS expr | expr PLUS PLUS | NUM: the shift
+// is backed by two productions of one rule. Without a qualifier on either the
+// conflict must be reported; with equal positive levels it is settled. Levels
+// that differ are outside the assertion (the documentation is silent).
+func H_ResolveMixedShift() {
+	g := NewGrammar()
+	plus, num := g.AddTerminal("PLUS"), g.AddTerminal("NUM")
+	expr := g.AddRule("expr")
+	g.SetStart(expr)
+	p1 := g.AddProd(expr, expr, plus, expr)
+	p2 := g.AddProd(expr, expr, plus, plus)
+	p3 := g.AddProd(expr, num)
+	vQual(p1, "p1")
+	vQual(p2, "p2")
+	vQual(p3, "p3")
+	t := ConstructLALR(g)
+	if vrt.Or(p1.Precedence <= 0, p2.Precedence <= 0) {
+		vrt.Assert(t.HasConflicts, "unqualified-shift-conflict-reported")
+		vrt.Reach("conflict")
+	} else if p1.Precedence == p2.Precedence {
+		vrt.Assert(!t.HasConflicts, "equal-levels-settle")
+		vrt.Reach("resolved")
+	}
+}
